@@ -338,6 +338,24 @@ int main(int argc, char **argv)
         fclose(f); printf(" bytes="); enc_n(b ? b : "", len); free(b); free(fn);
       }
       putchar('\n'); free(dir);
+    } else if (!strcmp(c, "reread")) {
+      int d = atoi(t[1]); econf_file *kf = obj(t[2]);
+      if (!kf) { printf("noobj\n"); }
+      else {
+        char *dir = vpath("/_out"); mkdir(dir, 0755);
+        econf_err e = econf_writeFile(kf, dir, "w.conf");
+        if (e != ECONF_SUCCESS) printf("driver-error write failed %d\n", e);
+        else {
+          char dl[2] = { econf_delimiter_tag(kf), 0 }, cm[2] = { econf_comment_tag(kf), 0 };
+          char *fn; if (asprintf(&fn, "%s/w.conf", dir) < 0) abort();
+          if (objs[d]) { econf_free(objs[d]); objs[d] = NULL; }
+          e = econf_readFile(&objs[d], fn, dl, cm);
+          if (e == ECONF_SUCCESS) printf("rc=0\n");
+          else { char *f2 = NULL; uint64_t ln = 0; econf_errLocation(&f2, &ln); printf("rc=%d line=%" PRIu64 "\n", e, ln); free(f2); }
+          free(fn);
+        }
+        free(dir);
+      }
     } else if (!strcmp(c, "dump")) {
       dump(obj(t[1]));
     } else if (!strcmp(c, "getall")) {
